@@ -186,6 +186,9 @@ int main(void) {
   }
 #else
   __CPROVER_assume(b < e && ((e - b - 1) >> K) < g);       /* 1 <= size <= grainsize * 2^K */
+#ifdef GFIX            /* "deep" scenarios: concrete begin and grainsize, symbolic size (the control logic is what is explored) */
+  __CPROVER_assume(g == GFIX && b == BFIX);
+#endif
   vp_ctx_init();
   int rc = vp_nd_bool() ? 2 : 1, st = vp_nd_bool();
   task_t* t = (task_t*)vp_task_make(b, e, g, rc, st);
